@@ -8,39 +8,93 @@ Require Import TL.Model.Duration.
 Require Import TL.Model.Temporal.
 Open Scope Z_scope.
 
-Inductive numkind := KInt | KFloat | KDec | KFrac.
+Inductive numkind := KBool | KInt | KFloat | KDec | KFrac.
+
+(* ---------------------------------------------------------------- structural equality of values *)
+Definition opt_eqb (a b : option Z) : bool :=
+  match a, b with Some x, Some y => x =? y | None, None => true | _, _ => false end.
+(* equal as Python compares aware values with the same offset: every field but fold *)
+Definition same_dt (a b : dtf) : bool :=
+  (dy a =? dy b) && (dmo a =? dmo b) && (dd a =? dd b) && (dh a =? dh b) && (dmi a =? dmi b) && (ds a =? ds b)
+  && (dus a =? dus b) && opt_eqb (doff a) (doff b).
+Definition same_tm (a b : tmf) : bool :=
+  (th a =? th b) && (tmi a =? tmi b) && (ts a =? ts b) && (tus a =? tus b) && opt_eqb (toff a) (toff b).
+Definition carrier_eqb (a b : carrier) : bool :=
+  match a, b with CStr, CStr | CBytes, CBytes | CBytearray, CBytearray | CMvBytes, CMvBytes | CMvBytearray, CMvBytearray => true
+  | _, _ => false end.
+Definition dtf_eqb (a b : dtf) : bool := same_dt a b && (dfold a =? dfold b).
+Definition tmf_eqb (a b : tmf) : bool := same_tm a b && (tfold a =? tfold b).
+Definition val_eqb (a b : val) : bool :=
+  match a, b with
+  | VNone, VNone => true
+  | VBool x, VBool y => Bool.eqb x y
+  | VInt x, VInt y => x =? y
+  | VFloat x, VFloat y | VDec x, VDec y | VFrac x, VFrac y | VUuid x, VUuid y | VPath x, VPath y
+  | VEnum x, VEnum y | VPattern x, VPattern y | VOther x, VOther y => String.eqb x y
+  | VText c s, VText c' s' => carrier_eqb c c' && String.eqb s s'
+  | VDate y m d, VDate y' m' d' => (y =? y') && (m =? m') && (d =? d')
+  | VDateTime x, VDateTime y => dtf_eqb x y
+  | VTime x, VTime y => tmf_eqb x y
+  | VTimeDelta d s u, VTimeDelta d' s' u' => (d =? d') && (s =? s') && (u =? u')
+  | _, _ => false end.
 
 Section WithRuntime.
 Variable rt : Runtime.
 
-Definition is_number (v : val) : bool := match v with VInt _ | VFloat _ => true | _ => false end.
+(* isinstance(v, (int, float)): bool is an int, a member of an int / float mixin enum is one *)
+Definition is_number (v : val) : bool := match view rt v with VInt _ | VFloat _ | VBool _ => true | _ => false end.
+(* isinstance(v, self.t) for the number classes (exact class or subclass: True is an int) *)
 Definition isinstance_num (k : numkind) (v : val) : bool :=
-  match k, v with KInt, VInt _ | KFloat, VFloat _ | KDec, VDec _ | KFrac, VFrac _ => true | _, _ => false end.
-(* self.t(decoded) for a non-container *)
+  match k, view rt v with
+  | KBool, VBool _ | KInt, VInt _ | KInt, VBool _ | KFloat, VFloat _ | KDec, VDec _ | KFrac, VFrac _ => true
+  | _, _ => false end.
+Definition is_empty (s : string) : bool := match s with EmptyString => true | _ => false end.
+(* bool(x) *)
+Definition truth (v : val) : res bool :=
+  match view rt v with
+  | VNone => Ok false
+  | VBool b => Ok b
+  | VInt z => Ok (negb (z =? 0))
+  | VText _ s => Ok (negb (is_empty s))
+  | VTimeDelta d s us => Ok (td_nonzero (d, s, us))
+  | VDate _ _ _ | VDateTime _ | VTime _ | VUuid _ | VPath _ | VPattern _ | VEnum _ => Ok true
+  | VFloat _ | VDec _ | VFrac _ | VOther _ => truthy rt v end.
+(* str(z) *)
+Definition zstr (z : Z) : string := string_of_list_ascii (show_Z z).
+(* self.t(decoded) for a non-container; a member of a mixin enum is converted as the str / int it is *)
 Definition num_ctor (k : numkind) (x : val) : res val :=
-  match k, x with
+  match k, view rt x with
+  | KBool, _ => truth x >>= fun b => Ok (VBool b)
   | KInt, VText CStr s => int_of_str rt s >>= fun z => Ok (VInt z)
   | KInt, VFloat f => int_of_float rt f >>= fun z => Ok (VInt z)
+  | KInt, VBool b => Ok (VInt (b2z b))
+  | KInt, VInt z => Ok (VInt z)
   | KFloat, VText CStr s => float_of_str rt s >>= fun f => Ok (VFloat f)
   | KFloat, VInt z => float_of_int rt z >>= fun f => Ok (VFloat f)
+  | KFloat, VBool b => float_of_int rt (b2z b) >>= fun f => Ok (VFloat f)
   | KFloat, VFloat f => Ok (VFloat f)
   | KDec, VText CStr s => dec_of_str rt s >>= fun d => Ok (VDec d)
   | KFrac, VText CStr s => frac_of_str rt s >>= fun d => Ok (VFrac d)
+  (* Decimal(z), Fraction(z) of an int (True is 1): what the text of the int gives *)
+  | KDec, VInt z => dec_of_str rt (zstr z) >>= fun d => Ok (VDec d)
+  | KDec, VBool b => dec_of_str rt (zstr (b2z b)) >>= fun d => Ok (VDec d)
+  | KFrac, VInt z => frac_of_str rt (zstr z) >>= fun d => Ok (VFrac d)
+  | KFrac, VBool b => frac_of_str rt (zstr (b2z b)) >>= fun d => Ok (VFrac d)
   | _, _ => Unmodelled end.
 
-(* NumberUnmarshaller.__call__ (mappings and iterables are not in this universe) *)
+(* NumberUnmarshaller.__call__ (mappings and iterables are not in this universe); bool is a Number too *)
 Definition unm_number (k : numkind) (v : val) : res val :=
   decode rt v >>= fun decoded =>
   if isinstance_num k decoded then Ok decoded
   else (if is_temporal v then unixtime rt v >>= fun f => Ok (VFloat f) else Ok decoded) >>= fun decoded' =>
        num_ctor k decoded'.
 
-(* StringUnmarshaller.__call__ *)
+(* StringUnmarshaller.__call__: a member of a str-mixin enum is a str and is returned as it is *)
 Definition unm_str (v : val) : res val :=
   decode rt v >>= fun decoded =>
-  match decoded with
-  | VText CStr _ => Ok decoded
-  | _ => if is_temporal v then Ok (VText CStr (isoformat rt v)) else Ok (VText CStr (canon_text rt decoded)) end.
+  match as_str rt decoded with
+  | Some _ => Ok decoded
+  | None => if is_temporal v then Ok (VText CStr (isoformat rt v)) else Ok (VText CStr (canon_text rt decoded)) end.
 
 (* BytesUnmarshaller.__call__ *)
 Definition unm_bytes (v : val) : res val :=
@@ -51,6 +105,10 @@ Definition unm_bytes (v : val) : res val :=
   | _ => if is_temporal v then Ok (VText CBytes (utf8_encode rt (isoformat rt v)))
          else Ok (VText CBytes (utf8_encode rt (canon_text rt v))) end.
 
+(* a member of a str-mixin enum handed to serdes.dateparse: fromisoformat, pendulum and the digit fallback each read
+   it their own way (the text of the member, or str(member)): outside the model; any other member is no str *)
+Definition parse_member (v : val) : res val := match as_str rt v with Some _ => Unmodelled | None => Ok v end.
+
 (* DateUnmarshaller.__call__ *)
 Definition unm_date (v : val) : res val :=
   match v with
@@ -58,7 +116,7 @@ Definition unm_date (v : val) : res val :=
   | _ =>
     (if is_number v then fromtimestamp_utc rt v >>= fun d => Ok (VDateTime d) else Ok v) >>= fun v1 =>
     decode rt v1 >>= fun decoded =>
-    (match decoded with VText CStr s => dateparse rt s KDate | _ => Ok decoded end) >>= fun date =>
+    (match decoded with VText CStr s => dateparse rt s KDate | VEnum _ => parse_member decoded | _ => Ok decoded end) >>= fun date =>
     match date with
     | VTime _ => Unmodelled                     (* today *)
     | VDate _ _ _ => Ok date
@@ -72,7 +130,7 @@ Definition unm_datetime (v : val) : res val :=
   | _ =>
     (if is_number v then fromtimestamp_utc rt v >>= fun d => Ok (VDateTime d) else Ok v) >>= fun v1 =>
     decode rt v1 >>= fun decoded =>
-    (match decoded with VText CStr s => dateparse rt s KDateTime | _ => Ok decoded end) >>= fun dt =>
+    (match decoded with VText CStr s => dateparse rt s KDateTime | VEnum _ => parse_member decoded | _ => Ok decoded end) >>= fun dt =>
     match dt with
     | VTime _ => Unmodelled                     (* now() *)
     | VDateTime _ => Ok dt
@@ -86,7 +144,7 @@ Definition unm_time (v : val) : res val :=
   | _ =>
     decode rt v >>= fun decoded =>
     (if is_number decoded then fromtimestamp_utc rt v >>= fun d => Ok (VTime (time_of d)) else Ok decoded) >>= fun d1 =>
-    (match d1 with VText CStr s => dateparse rt s KTime | _ => Ok d1 end) >>= fun dt =>
+    (match d1 with VText CStr s => dateparse rt s KTime | VEnum _ => parse_member d1 | _ => Ok d1 end) >>= fun dt =>
     match dt with
     | VDateTime d => Ok (VTime (time_of d))
     | VDate _ _ _ => Ok (VTime {| th := 0; tmi := 0; ts := 0; tus := 0; toff := utc; tfold := 0 |})
@@ -98,36 +156,76 @@ Definition unm_timedelta (v : val) : res val :=
   if is_number v then td_of_seconds rt v >>= fun '(d, s, us) => Ok (VTimeDelta d s us)
   else
     decode rt v >>= fun decoded =>
-    (match decoded with VText CStr s => dateparse rt s KTimeDelta | _ => Ok decoded end) >>= fun td =>
+    (match decoded with VText CStr s => dateparse rt s KTimeDelta | VEnum _ => parse_member decoded | _ => Ok decoded end) >>= fun td =>
     match td with VTimeDelta _ _ _ => Ok td | _ => Raise EOther end.
 
 (* UUIDUnmarshaller.__call__ *)
 Definition unm_uuid (v : val) : res val :=
   load rt v >>= fun decoded =>
-  match decoded with
-  | VInt z => uuid_of_int rt z >>= fun u => Ok (VUuid u)
-  | VUuid _ => Ok decoded
-  | VText CStr s => uuid_of_str rt s >>= fun u => Ok (VUuid u)
-  | _ => Raise EOther end.
+  match as_int rt decoded with
+  | Some z => uuid_of_int rt z >>= fun u => Ok (VUuid u)          (* isinstance(decoded, int): True is 1 *)
+  | None =>
+    match decoded with
+    | VUuid _ => Ok decoded
+    | _ => match as_str rt decoded with
+           | Some s => uuid_of_str rt s >>= fun u => Ok (VUuid u)
+           | None => Raise EOther end end end.
 
 (* PathUnmarshaller.__call__ *)
 Definition unm_path (v : val) : res val :=
   decode rt v >>= fun decoded =>
   match decoded with
   | VPath _ => Ok decoded
-  | VText CStr s => path_of_str rt s >>= fun p => Ok (VPath p)
-  | _ => Raise EType end.
+  | _ => match as_str rt decoded with
+         | Some s => path_of_str rt s >>= fun p => Ok (VPath p)
+         | None => Raise EType end end.
 
 (* EnumUnmarshaller.__call__ *)
 Definition unm_enum (v : val) : res val :=
-  match v with
-  | VEnum _ => Ok v
-  | _ =>
+  if match v with VEnum m => is_member rt m | _ => false end then Ok v
+  else
     match decode rt v >>= enum_of_val rt with
     | Ok m => Ok (VEnum m)
     | Raise EValue | Raise EType => load rt v >>= enum_of_val rt >>= fun m => Ok (VEnum m)
     | Raise e => Raise e
-    | Unmodelled => Unmodelled end end.
+    | Unmodelled => Unmodelled end.
+
+(* PatternUnmarshaller.__call__: re.compile(decode(val)); a compiled pattern is handed back by re.compile *)
+Definition unm_pattern (v : val) : res val :=
+  decode rt v >>= fun decoded =>
+  match decoded with
+  | VPattern _ => Ok decoded
+  | _ => match as_str rt decoded with
+         | Some s => re_compile rt s >>= fun p => Ok (VPattern p)
+         | None => Raise EType end end.
+
+(* NoneTypeUnmarshaller.__call__ *)
+Definition unm_none (v : val) : res val :=
+  decode rt v >>= fun d => match d with VNone => Ok VNone | _ => Raise EValue end.
+
+(* Python's == as `x in values` uses it (after `is`): decided here for int-like against int-like (bool included) and
+   text against text (a str never equals a bytes-like; bytes == bytearray == memoryview on equal content), structural
+   identity always suffices, everything else is the interpreter's *)
+Definition eqv (x m : val) : bool :=
+  val_eqb x m ||
+  match as_int rt x, as_int rt m with
+  | Some a, Some b => a =? b
+  | _, _ =>
+    match view rt x, view rt m with
+    | VText CStr a, VText CStr b => String.eqb a b
+    | VText CStr _, VText _ _ | VText _ _, VText CStr _ => false
+    | VText _ a, VText _ b => String.eqb a b
+    | VNone, _ | _, VNone => false
+    | _, _ => py_eq rt x m end end.
+Definition mem (x : val) (vs : list val) : bool := existsb (eqv x) vs.
+
+(* LiteralUnmarshaller.__call__: the raw input, then its decoded text, then the loaded value *)
+Definition unm_literal (vs : list val) (v : val) : res val :=
+  if mem v vs then Ok v
+  else decode rt v >>= fun text =>
+       if mem text vs then Ok text
+       else load rt v >>= fun decoded =>
+            if mem decoded vs then Ok decoded else Raise EValue.
 
 End WithRuntime.
 
@@ -148,14 +246,6 @@ Definition valid_clock (h mi s us fold : Z) : bool :=
 Definition valid_dt (d : dtf) : bool :=
   valid_date (dy d) (dmo d) (dd d) && valid_clock (dh d) (dmi d) (ds d) (dus d) (dfold d) && valid_off (doff d).
 Definition valid_tm (t : tmf) : bool := valid_clock (th t) (tmi t) (ts t) (tus t) (tfold t) && valid_off (toff t).
-Definition opt_eqb (a b : option Z) : bool :=
-  match a, b with Some x, Some y => x =? y | None, None => true | _, _ => false end.
-(* equal as Python compares aware values with the same offset: every field but fold *)
-Definition same_dt (a b : dtf) : bool :=
-  (dy a =? dy b) && (dmo a =? dmo b) && (dd a =? dd b) && (dh a =? dh b) && (dmi a =? dmi b) && (ds a =? ds b)
-  && (dus a =? dus b) && opt_eqb (doff a) (doff b).
-Definition same_tm (a b : tmf) : bool :=
-  (th a =? th b) && (tmi a =? tmi b) && (ts a =? ts b) && (tus a =? tus b) && opt_eqb (toff a) (toff b).
 
 Record RuntimeLaws (rt : Runtime) : Prop := {
   utf8_rt : forall s, utf8_decode rt (utf8_encode rt s) = Ok s;
@@ -177,7 +267,9 @@ Record RuntimeLaws (rt : Runtime) : Prop := {
   canon_unsigned : forall v, is_temporal v = true -> starts_neg (canon_text rt v) = false;
   (* pendulum reads what the repaired writer emits for non-negative durations (zero is spelled 'PT') *)
   parse_dur_rt : forall td, td_in_range td = true -> 0 <= td_total td ->
-    pendulum_parse rt (iso_duration td) = Ok (PDur (fst (fst td)) (snd (fst td)) (snd td))
+    pendulum_parse rt (iso_duration td) = Ok (PDur (fst (fst td)) (snd (fst td)) (snd td));
+  (* E(v) is a member of E *)
+  enum_result_member : forall w m, enum_of_val rt w = Ok m -> is_member rt m = true
 }.
 
 (* enum members: looked up by their value's text directly (str values), or after loading it (other values) *)
